@@ -11,9 +11,10 @@ META = dict(
                 "over the ballot variables, 'contradicts' as a concrete relation between assertions and complete elimination orders. "
                 "Non-empty result: reported tallies = oracle tallies, winner strictly larger, every order ending in another candidate is "
                 "contradicted by a returned assertion, each assertion re-tallies to its reported numbers through its own predicates "
-                "(C14's third clause). Empty result: valid only if no set of true assertions excludes every alternative winner.",
+                "(C14's third clause). Empty result: valid only if no set of true assertions excludes every alternative winner. Second-call cells "
+                "reuse one contest object after a concrete first profile; cells with two informal ballots (total above the number of CVRs).",
     bounds={"quick": {"candidates": 3, "ballots": "2, 3 (+ 2 ballot types with multiplicities 1..2)", "reported winner": "every candidate", "difficulty": "cp_estimate, bp_estimate", "hint": "none, one order"},
-            "thorough": {"candidates": 3, "ballots": "2, 3, 4; 4 candidates x 2 ballots; 2-3 ballot types with symbolic multiplicities 1..3", "hint": "none and every order"}},
+            "thorough": {"candidates": 3, "ballots": "2, 3, 4; 4 candidates x 2 ballots; 4 candidates x 2 weighted ballot types (1..2) with hint [C,A,D,B]; 2-3 ballot types with symbolic multiplicities 1..3", "hint": "none and every order"}},
     outside=["more ballots/candidates than the bound", "agap > 0", "logging"],
     assumptions=["ballots are duplicate-free partial rankings; all ballots contain the contest"],
     trusted=["symx core, merge", "oracle formulas"],
